@@ -115,13 +115,15 @@ func secondOps(k, x, y string, ttls []string, kvOnly bool) []string {
 			"cas "+k+" nil "+y+" "+t, "exp "+k+" "+t)
 		if !kvOnly {
 			out = append(out, "cas "+k+" i1 i1 "+t, "cas "+k+" i1 "+y+" "+t, "setl "+k+" 2 "+x+" "+y+" "+t)
+			out = append(out, "setl "+k+" 0 "+t, "set "+k+" s- "+t, "cas "+k+" s- "+y+" "+t, "cas "+k+" "+x+" s- "+t)
 		}
 	}
 	out = append(out, "get "+k, "del "+k, "ex "+k, "ttl "+k)
 	if !kvOnly {
 		out = append(out, "watch "+k, "start", "stop", "start stop start", "stop stop start start")
 		out = append(out, "exp "+k+" -1", "getl "+k, "app "+k+" "+y, "rem "+k+" "+x, "hset "+k+" f "+y, "hget "+k+" f",
-			"hget "+k+" g", "hall "+k, "hdel "+k+" f", "incr "+k+" 1", "incr "+k+" -3", "gc")
+			"hget "+k+" g", "hall "+k, "hdel "+k+" f", "incr "+k+" 1", "incr "+k+" -3", "gc",
+			"incr "+k+" 0", "hset "+k+" - "+y, "hget "+k+" -", "hdel "+k+" -", "app "+k+" s-", "rem "+k+" s-")
 	}
 	return out
 }
